@@ -957,6 +957,35 @@ void ext2_teardown(struct rthr *th)
 	ext3_teardown(th);
 }
 
+/* The loop of this thread stays inside iv_main although the model knows of nothing that is registered
+ * (C07.no_return has just been raised).  Name the property-specific promise that is broken with it:
+ * a released pool that has drained, an iv_thread that has exited, a closed popen request whose child
+ * was reaped must each have dropped what they held on the loop. */
+void ext2_blame_no_return(struct rthr *th)
+{
+	int i, t = (int)(th - RT);
+	for (i = 0; i < PL->nobj; i++) {
+		const struct pobj *po = &PL->obj[i];
+		struct robj *o = &RO[i];
+		if (po->owner != t)
+			continue;
+		switch (po->kind) {
+		case K_POOL:
+			if (o->xi[QX_CREATED] && o->xi[QX_PUT] && o->xi[QX_OUTSTANDING] == 0 && pool_workers_alive(i) == 0)
+				viol("C13.release", "thread %d: released pool obj %d has drained and all its workers have exited, yet the owner's loop does not return", t, i);
+			break;
+		case K_IVTHREAD:
+			if (o->xi[TX_STATE] == 3)
+				viol("C13.release", "thread %d: the thread of ivthread obj %d has exited, yet the creator's loop does not return", t, i);
+			break;
+		case K_POPEN:
+			if (o->xi[PX_CLOSED] && RO[(int)po->p[1]].xi[CX_REAPED_DEAD])
+				viol("C19.release", "thread %d: popen obj %d was closed and its child reaped, yet the loop does not return", t, i);
+			break;
+		}
+	}
+}
+
 void ext2_post_main(struct rthr *th)
 {
 	int i, t = (int)(th - RT);
